@@ -36,6 +36,11 @@ STUB_PATCHES = {
     "vstub_check": ("src/evaluate/mod.rs", r"pub " + _hdr("player_is_in_check"), "return crate::move_generator::verif_vstub_check(board, move_generator, player);"),
     "generate_moves_ewire": ("src/move_generator/mod.rs", r"pub " + _hdr("generate_moves"), "return self.ewire_generate(board, player);"),
     "effect_ewire": ("src/move_generator/mod.rs", _hdr("lazily_calculate_chess_move_effect"), "return self.ewire_effect(chess_move, board, player);"),
+    "lru_get": ("src/move_generator/mod.rs", r"self\.cache\.get\(", "kani_verif::cwire::LruStub::get(&mut self.cache, ", "sub"),
+    "lru_put": ("src/move_generator/mod.rs", r"self\.cache\.put\(", "kani_verif::cwire::lru_put(&mut self.cache, ", "sub"),
+    "gen_valid": ("src/move_generator/mod.rs", _hdr("generate_valid_moves"), "return kani_verif::cwire::gen_valid(board, color, targets);"),
+    "acache_get": ("src/move_generator/targets.rs", _hdr("get_cached_attack"), "return self.cwire_get_cached(color, board_hash);"),
+    "acache_put": ("src/move_generator/targets.rs", _hdr("cache_attack"), "return self.cwire_cache_attack(color, board_hash, attack_targets);"),
     "game_ending": ("src/evaluate/mod.rs", _hdr("game_ending"), "return kani_verif::estub::game_ending(board, move_generator, current_turn);"),
     "to_algebraic": ("common/src/bitboard/square.rs", _hdr("to_algebraic"), "if true { return tables::ALGEBRAIC[(square.0.trailing_zeros() & 63) as usize]; }"),
     "square_string_to_bitboard": ("common/src/bitboard/square.rs", _hdr("square_string_to_bitboard"),
@@ -71,12 +76,19 @@ def install_native_stubs(h, src):
     for key in h.get("native_stubs", []):
         if key not in STUB_PATCHES:
             return False, "no native stub patch for " + key
-        f, rx, stmt = STUB_PATCHES[key]
+        spec = STUB_PATCHES[key]
+        f, rx, stmt = spec[0], spec[1], spec[2]
         p = os.path.join(src, f)
         s = open(p).read()
-        s2, n = re.subn(rx, lambda m: m.group(0) + " " + stmt, s, count=1)
-        if n != 1:
-            return False, "stub patch pattern not found for " + key
+        if len(spec) > 3 and spec[3] == "sub":
+            # call-site substitution (for stand-ins of functions of external crates)
+            s2, n = re.subn(rx, stmt, s)
+            if n < 1:
+                return False, "stub patch pattern not found for " + key
+        else:
+            s2, n = re.subn(rx, lambda m: m.group(0) + " " + stmt, s, count=1)
+            if n != 1:
+                return False, "stub patch pattern not found for " + key
         open(p, "w").write(s2)
     return True, ""
 
@@ -91,16 +103,31 @@ HARNESS_FILES = {
 }
 
 
-def replay(prop, h, fcs, src, target, logs, env):
-    out = dict(reproduced=False, path=None, detail=None)
-    t0 = time.time()
+def _rust_str(x):
+    return '"' + x.replace("\\", "\\\\").replace('"', '\\"') + '"'
+
+
+def _playback_run(h, src, env, logs, filt, tag):
+    """cargo kani playback on tests whose name contains `filt`; returns (ran, failed, text)"""
+    lg = os.path.join(logs, f"playback-run-{h['name']}-{tag}.log")
+    _run(f"cargo kani playback -Z concrete-playback --lib -- {filt} --nocapture", src, env,
+         int(os.environ.get("VERIF_NATIVE_TIMEOUT", "1500")), lg)
+    t = open(lg, errors="replace").read()
+    ran = re.search(r"running (\d+) test", t)
+    failed = bool(re.search(r"test result: FAILED", t)) or ("panicked at" in t and bool(ran) and int(ran.group(1)) > 0)
+    return (int(ran.group(1)) if ran else 0), failed, t, lg
+
+
+def _kani_playback(prop, h, fcs, src, target, logs, env, hfile):
+    """Kani's own concrete playback: solver assignment -> #[test] -> native run. returns dict or None"""
     log1 = os.path.join(logs, f"playback-gen-{h['name']}.log")
     cmd = (f"cargo kani --lib -Z stubbing -Z concrete-playback --concrete-playback=print --exact --harness {h['fq']} "
            f"--target-dir {target}")
+
     def gen(extra_env):
         e = dict(env)
         e.update(extra_env)
-        _run(cmd, src, e, 3600, log1)
+        _run(cmd, src, e, int(os.environ.get('VERIF_PLAYBACK_TIMEOUT', '1500')), log1)
         txt = open(log1, errors="replace").read()
         found = []
         for blk in re.findall(r"```\s*\n(.*?)\n```", txt, re.S):
@@ -115,36 +142,65 @@ def replay(prop, h, fcs, src, target, logs, env):
         found = gen({})
     tests = [(b, n) for b, n, is_cover in found if not is_cover] or [(b, n) for b, n, is_cover in found]
     if not tests:
-        out["detail"] = "concrete playback produced no test"
         _keep(prop, log1)
-        return out
+        return dict(reproduced=False, detail="Kani concrete playback produced no test within the budget", tests=[])
+    with open(os.path.join(src, hfile), "a") as f:
+        for body, name in tests:
+            f.write("\n" + body + "\n")
+    ran, failed, t, lg = _playback_run(h, src, env, logs, f"kani_concrete_playback_{h['name']}_", "kani")
+    hit = [fc["desc"] for fc in fcs if fc["desc"] and fc["desc"][:50] in t]
+    res = dict(method="Kani concrete playback of the solver's assignment", tests_run=ran, test_failed=failed, matched_checks=hit,
+               panic=(re.findall(r"panicked at [^\n]*\n[^\n]*", t) or [""])[0][:400])
+    if not failed:
+        _keep(prop, lg)
+    return dict(reproduced=failed, detail=res, tests=tests)
+
+
+def _fuzz_playback(prop, h, fcs, src, logs, env, hfile):
+    """fallback: execute the same harness natively on sparse byte streams until the refuted assertion trips"""
+    needles = ", ".join(_rust_str(fc["desc"][:90]) for fc in fcs if fc["desc"])
+    tries = int(os.environ.get("VERIF_FUZZ_TRIES", "400000"))
+    with open(os.path.join(src, hfile), "a") as f:
+        f.write(f"\n#[test]\nfn verif_fuzz_{h['name']}() {{\n    crate::verif_ref::fuzz_drive({h['name']}, &[{needles}], {tries});\n}}\n")
+    ran, failed, t, lg = _playback_run(h, src, env, logs, f"verif_fuzz_{h['name']}", "fuzz")
+    m = re.search(r"FUZZ-REPRODUCED try=(\d+) msg=(.*)", t)
+    hx = re.search(r"FUZZ-BYTES ([0-9a-f]*)", t)
+    if m and hx and failed:
+        test = (f"#[test]\nfn verif_fuzz_replay_{h['name']}() {{\n    // input bytes of the harness's vany() calls, in call order\n"
+                f"    crate::verif_ref::fuzz_run_bytes({h['name']}, \"{hx.group(1)}\");\n}}")
+        res = dict(method="native search over sparse input streams (the solver refuted the assertion; this finds a native run that trips it)",
+                   tests_run=ran, test_failed=True, tries_until_hit=int(m.group(1)), panic=m.group(2)[:300])
+        return dict(reproduced=True, detail=res, tests=[(test, f"verif_fuzz_replay_{h['name']}")])
+    _keep(prop, lg)
+    return dict(reproduced=False, detail="native search did not trip the assertion (" + ("ran" if ran else "did not run") + ")", tests=[])
+
+
+def replay(prop, h, fcs, src, target, logs, env):
+    out = dict(reproduced=False, path=None, detail=None)
+    t0 = time.time()
     mod = h["fq"][: -len(h["name"])]
     hfile = HARNESS_FILES.get(mod)
     if not hfile or not os.path.exists(os.path.join(src, hfile)):
         out["detail"] = "unknown harness file for " + h["fq"]
         return out
-    with open(os.path.join(src, hfile), "a") as f:
-        for body, name in tests:
-            f.write("\n" + body + "\n")
     ok, detail = install_native_stubs(h, src)
     if not ok:
         out["detail"] = detail
         return out
-    results = {}
-    names = [n for _, n in tests]
-    for profile, flag in (("dev", ""), ("release", "--release")):
-        lg = os.path.join(logs, f"playback-run-{h['name']}-{profile}.log")
-        _run(f"cargo kani playback -Z concrete-playback --lib {flag} -- kani_concrete_playback_{h['name']}_ --nocapture", src, env, 3600, lg)
-        t = open(lg, errors="replace").read()
-        ran = re.search(r"running (\d+) test", t)
-        failed = bool(re.search(r"test result: FAILED", t)) or ("panicked at" in t and bool(ran))
-        hit = [fc["desc"] for fc in fcs if fc["desc"] and fc["desc"][:50] in t]
-        results[profile] = dict(tests_run=int(ran.group(1)) if ran else 0, test_failed=failed, matched_checks=hit,
-                                panic=(re.findall(r"panicked at [^\n]*\n[^\n]*", t) or [""])[0][:400])
-    reproduced = results["dev"]["test_failed"] or results["release"]["test_failed"]
-    if not reproduced:
-        for profile in ("dev", "release"):
-            _keep(prop, os.path.join(logs, f"playback-run-{h['name']}-{profile}.log"))
+    # stubbed harnesses have the largest traces (Kani's playback can need > 15 GB / > 30 min for them): try the
+    # cheap native search first; plain harnesses: the solver's own assignment first
+    order = ["fuzz", "kani"] if h.get("native_stubs") else ["kani", "fuzz"]
+    attempts = []
+    got = None
+    for how in order:
+        r = _fuzz_playback(prop, h, fcs, src, logs, env, hfile) if how == "fuzz" else _kani_playback(prop, h, fcs, src, target, logs, env, hfile)
+        attempts.append(dict(how=how, reproduced=r["reproduced"], detail=r["detail"]))
+        if r["reproduced"]:
+            got = r
+            break
+    if not got:
+        out["detail"] = attempts
+        return out
     d = os.path.join(os.environ.get("VERIF_REPLAY_DIR") or os.path.join(VERIF, "replays"), prop)
     os.makedirs(d, exist_ok=True)
     path = os.path.join(d, h["name"] + ".rs")
@@ -153,11 +209,10 @@ def replay(prop, h, fcs, src, target, logs, env):
         f.write("// failed checks: " + "; ".join(fc["desc"] for fc in fcs) + "\n")
         for fc in fcs:
             f.write(f"//   at {fc['file']}:{fc['line']} in {fc['func']}\n")
-        f.write(f"// native replay (cargo kani playback): dev: {results['dev']}\n//   release: {results['release']}\n")
-        f.write(f"// To re-run: /verif/bin/replay {prop} {h['name']}  -- snapshots /repo, injects the harness, appends the test(s) below to\n")
-        f.write(f"// {hfile} and runs `cargo kani playback -Z concrete-playback --lib -- {names[0]}`\n")
-        f.write("// The byte vectors are the concrete values of the harness's kani::any() calls, in call order.\n\n")
-        for body, name in tests:
+        f.write(f"// native replay: {got['detail']}\n")
+        f.write(f"// To re-run against /repo's current tree: /verif/bin/replay {prop} {h['name']}   (snapshots /repo, injects the harness, installs the\n")
+        f.write(f"// native stand-ins of the harness's Kani stubs {h.get('native_stubs')}, appends the test(s) below to {hfile}, runs `cargo kani playback`)\n\n")
+        for body, name in got["tests"]:
             f.write(body + "\n\n")
-    out.update(reproduced=reproduced, path=path, detail=results, seconds=round(time.time() - t0, 1))
+    out.update(reproduced=True, path=path, detail=attempts, seconds=round(time.time() - t0, 1))
     return out
